@@ -12,9 +12,10 @@ struct EvalC {
   SplineC s;
   i64 order = 0, type = 0;  // type: 0 Q, 1 float, 2 double, 3 long double
   i64 fnum = 1, fden = 2;   // interior fraction fnum/fden in (0,1)
+  i64 sexp = 0;             // floating types: grid and abscissae scaled by 2^sexp, coefficient k by 2^(-sexp*k) (exact)
   template <class A>
   void io(A &a) {
-    a("g", g); a("s", s); a("order", order); a("type", type); a("fnum", fnum); a("fden", fden);
+    a("g", g); a("s", s); a("order", order); a("type", type); a("fnum", fnum); a("fden", fden); a("sexp", sexp);
   }
 };
 
@@ -40,22 +41,38 @@ static R eps_of() {
 template <class T, size_t order>
 static void check_eval_T(const EvalC &c, vf::Obs &o) {
   constexpr bool exactT = std::is_same_v<T, Q>;
-  auto grid = make_grid<T>(c.g);
-  auto sp = make_spline<T, order>(grid, c.s);
-  std::vector<R> pts = c.g.points();
+  // build the objects; floating types: everything scaled exactly by powers of two (a spline far from / close to the
+  // limits of the exponent range is a spline too)
+  int sexp = 0;
+  // (coefficient k is scaled by 2^(-sexp*k): keep it finite for negative sexp)
+  if constexpr (!exactT) sexp = (int)std::max<i64>(-((i64)std::numeric_limits<T>::max_exponent - 8) / (i64)std::max<size_t>(order, 1), std::min<i64>((i64)std::numeric_limits<T>::max_exponent - 1, c.sexp));
+  std::vector<T> gv = c.g.values<T>();
+  if constexpr (!exactT) for (auto &v : gv) v = std::ldexp(v, sexp);
+  bspline::support::Grid<T> grid(gv);
+  bspline::support::Support<T> sup0(grid, (size_t)c.s.s, (size_t)c.s.e);
+  std::vector<std::array<T, order + 1>> cof(c.s.nint());
+  for (size_t i = 0; i < cof.size(); i++)
+    for (size_t k = 0; k <= order; k++) {
+      cof[i][k] = c.s.coeffT<T>(order, i, k);
+      if constexpr (!exactT) cof[i][k] = std::ldexp(cof[i][k], -sexp * (int)k);
+    }
+  bspline::Spline<T, order> sp(sup0, cof);
+  std::vector<R> pts;
+  for (const auto &v : gv) pts.push_back(exact(v));
   const size_t n = pts.size();
   const i64 s = c.s.s, e = c.s.e;
   const bool has_int = e - s >= 2;
   o.cls(std::string("type:") + Scalar<T>::name);
   o.cls("order:" + std::to_string(order));
   o.cls(e == s ? "win:empty" : e - s == 1 ? "win:point" : (s == 0 && e == (i64)n) ? "win:whole" : e - s == 2 ? "win:one-interval" : "win:sub");
+  if (sexp != 0) o.cls(std::abs(sexp) > 300 || (std::is_same_v<T, float> && std::abs(sexp) > 60) ? "scale:extreme" : "scale:moderate");
   o.nt(true);  // every case evaluates at every grid point and at both support ends
 
-  // bridge cross-check: denote(library object) == model built directly from the case
-  ref::Fn model = model_of(c.g, c.s, order);
+  // the stored piecewise polynomial, from the object's own data (exact conversion); for Q cross-checked with the case model
+  ref::Fn model = denote(sp);
   if constexpr (exactT) {
-    ref::Fn den = denote(sp);
-    VCHECK(o, ref::first_diff(den, model) == -1, "denote(spline) differs from the case model at interval " << ref::first_diff(den, model));
+    ref::Fn direct = model_of(c.g, c.s, order);
+    VCHECK(o, ref::first_diff(model, direct) == -1, "denote(spline) differs from the case model at interval " << ref::first_diff(model, direct));
   }
   // front / back
   for (int which = 0; which < 2; which++) {
@@ -74,6 +91,9 @@ static void check_eval_T(const EvalC &c, vf::Obs &o) {
   std::vector<R> xs;
   std::vector<std::string> kinds;
   auto addx = [&](const R &x, const char *k) { xs.push_back(x); kinds.push_back(k); };
+  const std::vector<R> upts = c.g.points();  // unscaled
+  {
+  const std::vector<R> &pts = upts;
   for (size_t j = 0; j < n; j++) addx(pts[j], "gridpoint");
   R frac(c.fnum, c.fden); frac.canonicalize();
   if (!(frac > 0 && frac < 1)) frac = R(1, 2);
@@ -84,12 +104,21 @@ static void check_eval_T(const EvalC &c, vf::Obs &o) {
     addx(pts[(size_t)e - 1] + tiny, "just-outside"); addx(pts[(size_t)e - 1] - tiny * (pts[1] - pts[0]), "just-inside-or-at");
   }
   addx(pts.front() - 1000, "far-outside"); addx(pts.back() + 1000, "far-outside"); addx(pts.front() - R(1, 3), "outside-grid"); addx(pts.back() + R(1, 7), "outside-grid");
+  }
   std::vector<T> xT;
-  for (auto &x : xs) xT.push_back(fromR<T>(x));
+  {
+    std::vector<std::string> kept;
+    for (size_t q = 0; q < xs.size(); q++) {
+      T v = fromR<T>(xs[q]);
+      if constexpr (!exactT) { v = std::ldexp(v, sexp); if (!std::isfinite(v)) continue; }
+      xT.push_back(v); kept.push_back(kinds[q]);
+    }
+    kinds = kept;
+  }
   if constexpr (!exactT) {
     // one ulp either side of both support ends and of every grid point
     for (size_t j = 0; j < n; j++) {
-      T p = fromR<T>(pts[j]);
+      T p = gv[j];
       xT.push_back(std::nextafter(p, std::numeric_limits<T>::infinity())); kinds.push_back("ulp-above-gridpoint");
       xT.push_back(std::nextafter(p, -std::numeric_limits<T>::infinity())); kinds.push_back("ulp-below-gridpoint");
     }
@@ -113,7 +142,7 @@ static void check_eval_T(const EvalC &c, vf::Obs &o) {
       } else {
         // allowance: 64 eps * sum_k |c_k| |x-xm|^k  (+ tiny absolute for subnormal-free inputs)
         R xm = (pts[j] + pts[j + 1]) / 2, dx = absR<T>(x - xm), pw(1), S(0);
-        for (size_t k = 0; k <= order; k++) { S += absR<T>(c.s.coeff(order, j - (size_t)s, k)) * pw; pw *= dx; }
+        for (size_t k = 0; k <= order; k++) { S += absR<T>(exact(cof[j - (size_t)s][k])) * pw; pw *= dx; }
         if (absR<T>(got - want) <= (order > 6 ? 128 : 64) * eps_of<T>() * S) match = true;  // Horner of degree p: ~2p eps
       }
     }
@@ -169,6 +198,15 @@ int main(int argc, char **argv) {
       c.s = gen_spline(c.g.n(), (size_t)(c.order >= 7 ? 10 : c.order), -1, co);
       c.fden = one_of<i64>({2, 3, 4, 7, 10, 1000});
       c.fnum = pick(1, c.fden - 1);
+      if (!exact_only && chance(30)) {
+        // scaled splines: moderate (2^+-20..200) or at the limits of the exponent range; 5%: the grid {-3/2, 1/2, 1} * 2^(emax-1),
+        // whose first interval is wider than the largest finite value while every grid point and every sum of neighbours is finite
+        int emax = c.type == 1 ? 127 : c.type == 2 ? 1023 : 16383;
+        int r = (int)pick(0, 99);
+        if (r < 50) c.sexp = (chance(50) ? 1 : -1) * pick(20, c.type == 1 ? 60 : 200);
+        else if (r < 85) c.sexp = chance(50) ? pick(emax - 40, emax - 5) : -pick(emax - 60, emax - 10);
+        else { c.g.den = 2; c.g.off = -3; c.g.gaps = {4, 1}; c.sexp = emax - 1; c.s = gen_spline(3, (size_t)(c.order >= 7 ? 10 : c.order), chance(60) ? W_WHOLE : -1, co); }
+      }
       return c;
     });
   };
